@@ -92,6 +92,17 @@ let chance r num den = rand r den < num
 let pick r l = List.nth l (rand r (List.length l))
 let hex_of_int64 (v : int64) = Printf.sprintf "%Lx" v
 let n_of_int64 v = n_of_hex (hex_of_int64 v)
+(* decimal numerals of any size (the counters are 64-bit in the C++ and unbounded in the model; OCaml's int is 63-bit) *)
+let n_of_dec (s : string) : n =
+  let ten = n_of_int 10 in
+  let acc = ref N0 in
+  String.iter (fun c -> match c with
+      | '0' .. '9' -> acc := N.add (N.mul !acc ten) (n_of_int (Char.code c - 48))
+      | _ -> failwith ("bad decimal " ^ s)) s;
+  !acc
+let rec dec_of_n (x : n) : string =
+  (* via the specification's own decimal printer *)
+  String.concat "" (List.map (fun c -> String.make 1 (Char.chr (int_of_n c))) (Lcmodel.dec x))
 
 (* ---------- driver subprocess ---------- *)
 type drv = { ic : in_channel; oc : out_channel; mutable log : string list (* newest first, since last reset *) }
